@@ -502,6 +502,9 @@ func nativeRun(o *checkOpts, gr *groupRun) error {
 			refs = append(refs, ref{v: v})
 		}
 		for _, w := range res.Witnesses {
+			if w.UFDependent {
+				continue // the model fixes a checksum stub's value; the real checksum of these bytes differs
+			}
 			tapes = append(tapes, nativeTape{w.Harness, tapeVals(w.Tape), thorough})
 			refs = append(refs, ref{w: w})
 		}
